@@ -259,6 +259,31 @@ def gen(rng, tier):
             j = rng.randrange(len(s))
             s = s[:j] + rng.choice([b"", b"\r", b"\n", b" ", b":", bytes([rng.randrange(256)])]) + s[j + 1:]
         add(s, "damaged", len(s) <= limit and rng.random() < (0.3 if q else 1.0))
+    # a request with a body, then 0-3 stray empty lines, then pipelined requests: every cut around the end of the
+    # body (the IE extra-CRLF tolerance must not depend on where the delivery ends)
+    nxt = b"GET /n1 HTTP/1.1\r\nHost: h\r\n\r\n" + b"GET /n2 HTTP/1.1\r\nHost: h\r\n\r\n"
+    for head, body in ((b"POST /s HTTP/1.1\r\nHost: h\r\nContent-Length: 3\r\n\r\n", b"abc"),
+                       (b"POST /s HTTP/1.1\r\nHost: h\r\nTransfer-Encoding: chunked\r\n\r\n", b"3\r\nabc\r\n0\r\n\r\n"),
+                       (b"POST /s HTTP/1.1\r\nHost: h\r\nTransfer-Encoding: chunked\r\n\r\n", b"1\r\nz\r\n0\r\nT: v\r\n\r\n")):
+        for stray in range(4):
+            s = head + body + b"\r\n" * stray + nxt
+            e = len(head) + len(body)
+            lo, hi = max(1, e - 3), min(len(s) - 1, e + 2 * stray + 3)
+            plans = [[]] + [[i] for i in range(lo, hi + 1)] + [[i, j] for i in range(lo, hi + 1) for j in range(i + 1, hi + 2)]
+            plans.append(list(range(1, len(s))))
+            cases.append({"stream": s.hex(), "resp": [], "plans": plans, "cls": f"stray-crlf{stray}"})
+            cases.append({"stream": s.hex(), "resp": [False, True, False],
+                          "plans": [[]] + [[i, "F"] for i in range(lo, hi + 1)] + [[i, i + 1, "F", "F"] for i in range(lo, hi)],
+                          "cls": f"stray-crlf{stray}+async"})
+    # chunk-size lines of maxChunkSizeLineLength -1 / +0 / +1 bytes, cut at every offset in their last bytes and CRLF
+    for ln in (1023, 1024, 1025):
+        for line in (b"5;" + b"e" * (ln - 2), b"0" * (ln - 1) + b"5"):
+            head = b"POST /l HTTP/1.1\r\nHost: h\r\nTransfer-Encoding: chunked\r\n\r\n"
+            s = head + line + b"\r\nhello\r\n0\r\n\r\n" + c19.SENTINEL
+            e = len(head) + len(line)            # offset of the CR that ends the size line
+            cuts = range(e - 4, e + 4)
+            plans = [[]] + [[i] for i in cuts] + [[i, j] for i in cuts for j in cuts if i < j] + [[len(head), e, e + 1]]
+            cases.append({"stream": s.hex(), "resp": [], "plans": plans, "cls": f"size-line{ln}"})
     # header section at the size limits (totalHeadersSize 16384, maxHeaders 500, MAX_LENGTH 16384)
     for nb in ((16384,) if q else (16200, 16383, 16384, 16385, 16400)):
         line = b"GET /" + b"a" * 20 + b" HTTP/1.1\r\n"
@@ -335,7 +360,8 @@ SPEC = Spec(
     rule="request streams (pipelines of 1-3 well-formed requests with Content-Length / chunked bodies, obs-fold, "
          "Expect: 100-continue, Connection: close, HTTP/1.0, trailing partial requests; every class of malformed "
          "request from C19 inside a pipeline; random byte damage; header sections at totalHeadersSize / maxHeaders / "
-         "MAX_LENGTH +-1) each delivered whole, at EVERY 2-way split (streams <= 200 B), byte-wise and at random "
+         "MAX_LENGTH +-1; bodies followed by 0-3 stray empty lines cut at every offset around the body end; chunk-size "
+         "lines of 1023/1024/1025 bytes cut at every offset in their last bytes) each delivered whole, at EVERY 2-way split (streams <= 200 B), byte-wise and at random "
          "multi-splits, with all requests answered synchronously and again with a random subset answered later "
          "(finish operations between deliveries, incl. the whole rest of the stream buffered while the first request "
          "is handled).  non-trivial = more than one delivery plan on a stream > 20 bytes; distinct by (case, observation)",
